@@ -19,7 +19,7 @@ func NewPlanarYUVLuminanceSource(yuvData []byte,
 	dataWidth, dataHeight, left, top, width, height int,
 	reverseHorizontal bool) (LuminanceSource, error) {
 
-	if left+width > dataWidth || top+height > dataHeight {
+	if left < 0 || top < 0 || left+width > dataWidth || top+height > dataHeight {
 		return nil, errors.New("IllegalArgumentException: Crop rectangle does not fit within image data")
 	}
 
@@ -92,6 +92,9 @@ func (this *PlanarYUVLuminanceSource) IsCropSupported() bool {
 }
 
 func (this *PlanarYUVLuminanceSource) Crop(left, top, width, height int) (LuminanceSource, error) {
+	if left < 0 || top < 0 || left+width > this.GetWidth() || top+height > this.GetHeight() {
+		return nil, errors.New("IllegalArgumentException: Crop rectangle does not fit within image data")
+	}
 	return NewPlanarYUVLuminanceSource(
 		this.yuvData,
 		this.dataWidth,
